@@ -202,3 +202,12 @@ def many_long_lists(tier):
         out.append([[i, 100 + i, 4294967295 - i] for i in range(n)])
         out.append([list(range(i, 3 * n, n)) for i in range(n)])
     return out
+
+
+def shared_buffer_views():
+    """Pairs of strictly increasing views cut from ONE buffer (same start and length but different strides, overlapping windows, the same view
+    twice): identity of memory is not equality of content."""
+    base = numpy.arange(16, dtype=U32)
+    specs = [(0, 2, 1), (0, 4, 2), (0, 8, 4), (0, 4, 1), (0, 8, 2), (1, 5, 2), (1, 3, 1), (0, 16, 5), (2, 14, 4), (0, 16, 1), (15, 16, 1), (0, 0, 1)]
+    views = [(sp, base[sp[0]:sp[1]:sp[2]]) for sp in specs]
+    return [(sa, a, sb, b) for sa, a in views for sb, b in views]
